@@ -9,14 +9,14 @@ ENGINE = "api-harness"
 TECHNIQUE = "runtime relations checked through the public API on (P, M(P)) loaded in one environment: symmetry of ==, equal => equal hashes, corpus diff lists a function as changed iff it is unequal, compute_diff(a,b)->has_changes() iff a != b; all pairs of types inside one corpus"
 LEVEL_TEXT = ("harness ir_relations loads P and a mutated copy in one environment (DWARF reader) and evaluates, for every same-id pair of "
               "functions / variables and every same-name pair of types: a==b <=> b==a; a==b => hash(a)==hash(b); the corpus diff lists "
-              "the function as changed exactly when it is unequal; compute_diff(a,b)->has_changes() <=> a!=b; plus all pairs of types inside one corpus (capped at 400x400) for symmetry, hash "
+              "the function as changed exactly when it is unequal; compute_diff(a,b)->has_changes() <=> a!=b; plus all pairs of types inside one corpus (capped at 150x150) for symmetry, hash "
               "and canonical-type consistency.  Every eighth case runs on the ASan+UBSan build.")
 LEVEL_NOTE = "types are paired by internal pretty representation"
 ASSUMPTIONS = [LEVEL_NOTE]
 
 
 def plan(tier):
-    return {"n": 150 if tier == "quick" else 2000, "floor": 40 if tier == "quick" else 500}
+    return {"n": 100 if tier == "quick" else 2000, "floor": 30 if tier == "quick" else 500}
 
 
 def rule(tier):
